@@ -969,8 +969,11 @@ class _GenerateRenderMethod:
         pass
 
     def visitBlockTag(self, node):
+        # a buffered block returns its content instead of writing it
+        buffered = eval(node.attributes.get("buffered", "False"))
+        call = "__M_writer(%s)" if buffered else "%s"
         if node.is_anonymous:
-            self.printer.writeline("%s()" % node.funcname)
+            self.printer.writeline(call % ("%s()" % node.funcname))
         else:
             nameargs = node.get_argument_expressions(as_call=True)
             nameargs += ["**pageargs"]
@@ -979,7 +982,11 @@ class _GenerateRenderMethod:
                 "not hasattr(context._data['parent'], '%s'):" % node.funcname
             )
             self.printer.writeline(
-                "context['self'].%s(%s)" % (node.funcname, ",".join(nameargs))
+                call
+                % (
+                    "context['self'].%s(%s)"
+                    % (node.funcname, ",".join(nameargs))
+                )
             )
             self.printer.writeline("\n")
 
